@@ -712,7 +712,7 @@ pub fn stages(ctx: &Ctx) -> Vec<Stage> {
         let c = Pair { complex, a, b, tol_a: None, tol_b: None, from_slice: false, s: C64::new(3.0, 0.0), xs: vec![rand_point(&mut rng, complex, 1.0)], shape_a: "monomial".into(), shape_b: "monomial".into() };
         run_pair_dyn(rep, &c);
     }));
-    st.push(Stage::new("pairs", tier.pick(6_000, 300_000), move |i, rep| {
+    st.push(Stage::new("pairs", tier.pick(20_000, 300_000), move |i, rep| {
         let mut rng = Rng::for_case(seed, "c11-pairs", i);
         let complex = i % 2 == 1;
         let da = pick_degree(&mut rng);
@@ -736,7 +736,7 @@ pub fn stages(ctx: &Ctx) -> Vec<Stage> {
         let case = DftCase { complex, c, size, tol: None, idft_tol: DEFAULT_TOL, shape: shape.into() };
         run_dft_dyn(rep, &case, &mut rng);
     }));
-    st.push(Stage::new("dft", tier.pick(1_500, 60_000), move |i, rep| {
+    st.push(Stage::new("dft", tier.pick(5_000, 60_000), move |i, rep| {
         let mut rng = Rng::for_case(seed, "c11-dft", i);
         let complex = i % 2 == 1;
         let l = pick_degree(&mut rng) + 1;
